@@ -137,6 +137,7 @@ func init() {
 		return False
 	})
 	reg("MergeBool", func(in *Interp, fr *Frame, a []Value) Value { return in.mergeBool(fr, a[0]) })
+	reg("Native", func(in *Interp, fr *Frame, a []Value) Value { return False })
 	reg("StuckRand", func(in *Interp, fr *Frame, a []Value) Value {
 		in.misc["stuckRand"] = a[0].(*Term).IsTrue()
 		return nil
